@@ -49,7 +49,14 @@ Definition expr_kind_name (e : expr) : string :=
   | ELiteral _ => "Literal" | EConstant _ => "Constant" | EOverride _ => "Override" | EZeroValue _ => "ZeroValue"
   | ECompose _ _ => "Compose" | EAccess _ _ => "Access" | EAccessIndex _ _ => "AccessIndex" | ESplat _ _ => "Splat"
   | ESwizzle _ _ _ => "Swizzle" | EFunctionArgument _ => "FunctionArgument" | EGlobalVariable _ => "GlobalVariable"
-  | ELocalVariable _ => "LocalVariable" | ELoad _ => "Load" | EUnary _ _ => "Unary" | EBinary _ _ _ => "Binary"
+  | ELocalVariable _ => "LocalVariable" | ELoad _ => "Load" | EUnary _ _ => "Unary"
+  | EBinary op _ _ =>
+    match op with
+    | BAdd => "Binary.Add" | BSub => "Binary.Sub" | BMul => "Binary.Mul" | BDiv => "Binary.Div" | BMod => "Binary.Mod"
+    | BEq => "Binary.Eq" | BNe => "Binary.Ne" | BLt => "Binary.Lt" | BLe => "Binary.Le" | BGt => "Binary.Gt" | BGe => "Binary.Ge"
+    | BAnd => "Binary.And" | BXor => "Binary.Xor" | BOr => "Binary.Or" | BLogicalAnd => "Binary.LogicalAnd"
+    | BLogicalOr => "Binary.LogicalOr" | BShl => "Binary.Shl" | BShr => "Binary.Shr"
+    end
   | ESelect _ _ _ => "Select" | ERelational _ _ => "Relational" | EMath f _ => f | EAs _ _ _ => "As"
   | ECallResult _ => "CallResult" | EArrayLength _ => "ArrayLength" | EAtomicResult _ _ => "AtomicResult"
   | EOther t _ => t
